@@ -10,7 +10,7 @@ from . import aclgen as AG
 from .common import Spec, Claims
 
 PROPERTY = "C04"
-BOUNDS = ("ACLs of 2..4 (quick) / 2..5 (thorough) lines selected (order kept and reversed) from 5 relation templates over shared "
+BOUNDS = ("ACLs of 2..4 (quick) / 2..5 (thorough) lines selected (order kept, reversed and seeded random orders) from 6 relation templates over shared "
           "symbolic addresses X/24, host in X/24, free Y, ports p..p+2 and q: nested / duplicate / disjoint addresses, ports and "
           "protocols, remarks + headings + log + TCP flags, non-contiguous wildcards, address groups with members; sequence "
           "numbers none or symbolic; group_by none or '= '; both platforms.  All addresses, ports, numbers and the probe packet "
@@ -30,6 +30,10 @@ def _selections(tier, seed):
             rnd.shuffle(combos)
             sels += combos[:(4 if tier == "quick" else 10)]
         sels = [list(c) for c in sels] + [list(reversed(c)) for c in sels[:(3 if tier == "quick" else 8)]]
+        # arbitrary orders (not only configuration order and its reverse)
+        for _ in range(4 if tier == "quick" else 16):
+            k = rnd.choice((3, 4) if tier == "quick" else (3, 4, 5))
+            sels.append(rnd.sample(range(n), min(k, n)))
         for s in sels:
             # a selection must contain at least one ACE
             if any(tmpl[i]["kind"] == "ace" for i in s):
